@@ -1,0 +1,232 @@
+// Verification hooks (cfg(feature = "verif") only, adds code only): a small facade over a REAL
+// socket transport (TCP; WebSocket / QUIC with the `websocket` / `quic` features) for checks that look at what
+// happens to a connection after the owner accepted or rejected it: the crate-private `Transport`
+// trait calls an owner makes for an inbound / outbound connection, `Stream::poll_next` flattened,
+// and the receiving end of the channel the connection tasks report `ConnectionClosed` on.
+
+use crate::{
+    codec::ProtocolCodec,
+    crypto::ed25519::Keypair,
+    executor::DefaultExecutor,
+    protocol::InnerTransportEvent,
+    transport::{
+        manager::{ProtocolContext, SubstreamKeepAlive, TransportHandle, TransportManagerEvent},
+        Transport, TransportBuilder, TransportEvent,
+    },
+    types::{protocol::ProtocolName, ConnectionId},
+    BandwidthSink, PeerId,
+};
+
+use futures::{future::BoxFuture, Stream};
+use hickory_resolver::TokioResolver;
+use multiaddr::Multiaddr;
+
+use std::{
+    collections::HashMap,
+    pin::Pin,
+    sync::{
+        atomic::{AtomicUsize, Ordering},
+        Arc,
+    },
+    task::{Context, Poll},
+};
+
+/// `TransportEvent`, flattened to what a caps check looks at.
+#[derive(Debug, Clone, Copy, PartialEq, Eq)]
+pub enum VerifSockEvent {
+    PendingInbound(usize),
+    /// Connection id, `endpoint.is_listener()`, the authenticated remote peer.
+    Established(usize, bool, PeerId),
+    DialFailure(usize),
+    Other(usize),
+}
+
+pub struct VerifSock {
+    inner: Box<dyn Transport<Item = TransportEvent>>,
+    counter: Arc<AtomicUsize>,
+    peer: PeerId,
+    rx: tokio::sync::mpsc::Receiver<TransportManagerEvent>,
+    /// The event channel of the one installed protocol. It is never read: the
+    /// `ConnectionEstablished` events waiting in it hold the connection handles a protocol
+    /// would hold, which is what keeps an accepted connection open.
+    _protocol_rx: tokio::sync::mpsc::Receiver<InnerTransportEvent>,
+}
+
+type Parts = (
+    TransportHandle,
+    Arc<AtomicUsize>,
+    PeerId,
+    tokio::sync::mpsc::Receiver<TransportManagerEvent>,
+    tokio::sync::mpsc::Receiver<InnerTransportEvent>,
+);
+
+fn handle(keypair: Keypair) -> Parts {
+    let (tx, rx) = tokio::sync::mpsc::channel(256);
+    let (protocol_tx, protocol_rx) = tokio::sync::mpsc::channel(4096);
+    let mut protocols = HashMap::new();
+    protocols.insert(
+        ProtocolName::from("/verif/caps/1"),
+        ProtocolContext {
+            codec: ProtocolCodec::UnsignedVarint(None),
+            tx: protocol_tx,
+            fallback_names: Vec::new(),
+            keep_alive: SubstreamKeepAlive::Yes,
+        },
+    );
+    let counter = Arc::new(AtomicUsize::new(0usize));
+    let peer = PeerId::from_public_key(&keypair.public().into());
+    let handle = TransportHandle {
+        executor: Arc::new(DefaultExecutor {}),
+        next_substream_id: Default::default(),
+        next_connection_id: counter.clone(),
+        keypair,
+        tx,
+        bandwidth_sink: BandwidthSink::new(),
+        protocols,
+    };
+    (handle, counter, peer, rx, protocol_rx)
+}
+
+fn resolver() -> crate::Result<Arc<TokioResolver>> {
+    Ok(Arc::new(
+        TokioResolver::builder_tokio()
+            .map_err(|_| crate::Error::Other("resolver".to_string()))?
+            .build()
+            .map_err(|_| crate::Error::Other("resolver".to_string()))?,
+    ))
+}
+
+impl VerifSock {
+    /// A real `TcpTransport` built the way `Litep2p::new` builds it (no protocols installed).
+    pub fn new_tcp(
+        keypair: Keypair,
+        config: crate::transport::tcp::config::Config,
+    ) -> crate::Result<(Self, Vec<Multiaddr>)> {
+        let (handle, counter, peer, rx, _protocol_rx) = handle(keypair);
+        let (inner, addresses) =
+            <crate::transport::tcp::TcpTransport as TransportBuilder>::new(handle, config, resolver()?)?;
+        Ok((
+            Self {
+                inner: Box::new(inner),
+                counter,
+                peer,
+                rx,
+                _protocol_rx,
+            },
+            addresses,
+        ))
+    }
+
+    /// A real `WebSocketTransport`, likewise.
+    #[cfg(feature = "websocket")]
+    pub fn new_websocket(
+        keypair: Keypair,
+        config: crate::transport::websocket::config::Config,
+    ) -> crate::Result<(Self, Vec<Multiaddr>)> {
+        let (handle, counter, peer, rx, _protocol_rx) = handle(keypair);
+        let (inner, addresses) =
+            <crate::transport::websocket::WebSocketTransport as TransportBuilder>::new(
+                handle,
+                config,
+                resolver()?,
+            )?;
+        Ok((
+            Self {
+                inner: Box::new(inner),
+                counter,
+                peer,
+                rx,
+                _protocol_rx,
+            },
+            addresses,
+        ))
+    }
+
+    /// A real `QuicTransport`, likewise.
+    #[cfg(feature = "quic")]
+    pub fn new_quic(
+        keypair: Keypair,
+        config: crate::transport::quic::config::Config,
+    ) -> crate::Result<(Self, Vec<Multiaddr>)> {
+        let (handle, counter, peer, rx, _protocol_rx) = handle(keypair);
+        let (inner, addresses) = <crate::transport::quic::QuicTransport as TransportBuilder>::new(
+            handle,
+            config,
+            resolver()?,
+        )?;
+        Ok((
+            Self {
+                inner: Box::new(inner),
+                counter,
+                peer,
+                rx,
+                _protocol_rx,
+            },
+            addresses,
+        ))
+    }
+
+    pub fn local_peer_id(&self) -> PeerId {
+        self.peer
+    }
+
+    /// What `TransportManager::next_connection_id` does on the shared counter.
+    pub fn draw_connection_id(&self) -> usize {
+        self.counter.fetch_add(1usize, Ordering::Relaxed)
+    }
+
+    pub fn dial(&mut self, connection_id: usize, address: Multiaddr) -> bool {
+        self.inner.dial(ConnectionId::from(connection_id), address).is_ok()
+    }
+
+    pub fn accept(&mut self, connection_id: usize) -> Option<BoxFuture<'static, crate::Result<()>>> {
+        self.inner.accept(ConnectionId::from(connection_id)).ok()
+    }
+
+    pub fn reject(&mut self, connection_id: usize) -> bool {
+        self.inner.reject(ConnectionId::from(connection_id)).is_ok()
+    }
+
+    pub fn accept_pending(&mut self, connection_id: usize) -> bool {
+        self.inner.accept_pending(ConnectionId::from(connection_id)).is_ok()
+    }
+
+    pub fn reject_pending(&mut self, connection_id: usize) -> bool {
+        self.inner.reject_pending(ConnectionId::from(connection_id)).is_ok()
+    }
+
+    /// One call of `Stream::poll_next`. `Ready(None)`: the listener terminated.
+    pub fn poll_event(&mut self, cx: &mut Context<'_>) -> Poll<Option<VerifSockEvent>> {
+        match Pin::new(&mut self.inner).poll_next(cx) {
+            Poll::Pending => Poll::Pending,
+            Poll::Ready(None) => Poll::Ready(None),
+            Poll::Ready(Some(event)) => Poll::Ready(Some(match event {
+                TransportEvent::PendingInboundConnection { connection_id } =>
+                    VerifSockEvent::PendingInbound(connection_id.verif_as_usize()),
+                TransportEvent::ConnectionEstablished { peer, endpoint } =>
+                    VerifSockEvent::Established(
+                        endpoint.connection_id().verif_as_usize(),
+                        endpoint.is_listener(),
+                        peer,
+                    ),
+                TransportEvent::DialFailure { connection_id, .. } =>
+                    VerifSockEvent::DialFailure(connection_id.verif_as_usize()),
+                TransportEvent::ConnectionOpened { connection_id, .. }
+                | TransportEvent::OpenFailure { connection_id, .. }
+                | TransportEvent::ConnectionClosed { connection_id, .. } =>
+                    VerifSockEvent::Other(connection_id.verif_as_usize()),
+            })),
+        }
+    }
+
+    /// What the connection tasks of this transport told their manager: `ConnectionClosed`
+    /// (peer, connection id).
+    pub fn poll_manager_event(&mut self, cx: &mut Context<'_>) -> Poll<Option<(PeerId, usize)>> {
+        match self.rx.poll_recv(cx) {
+            Poll::Pending => Poll::Pending,
+            Poll::Ready(None) => Poll::Ready(None),
+            Poll::Ready(Some(TransportManagerEvent::ConnectionClosed { peer, connection })) =>
+                Poll::Ready(Some((peer, connection.verif_as_usize()))),
+        }
+    }
+}
